@@ -2,7 +2,7 @@ CONSTANT P = 17
 CONSTANT N = 2
 CONSTANT MUT = "none"
 CONSTANT DIDS = {1, 2, 3, 4, 5}
-CONSTANT BETAS = {2, 3, 5}
+CONSTANT BETAS = {2, 3}
 INIT Init
 NEXT Next
 INVARIANT Theorem
